@@ -445,6 +445,10 @@ fn run_reply(c: &ReplyCase) -> Verdict {
     })
 }
 
+pub fn check(c: &Case) -> Verdict {
+    run_case(c)
+}
+
 pub fn run(run: &Run) {
     run.assume("membership after an add is read back from the table (bucket-full and gate refusals are the implementation's), then constrained: nothing lost, nothing foreign, acknowledged ids present, no duplicate, never the local id");
     run.set_rule("engine", "history of join_network/add_node/handle_node_failure/evict_node over ids drawn by bucket (0–4, 250–255, mid, any; the local id; repeats of earlier ids), then find_nodes / FindNode / FindValue queries with counts 0..=64, usize::MAX; non-trivial = ≥2 populated buckets and a query whose bucket is not the most populated one, or a repeated/self id in the history");
